@@ -419,7 +419,7 @@ func (g *gen) initScopeLocals(sc *scope, params []*Var) []Stmt {
 	return out
 }
 
-var loopNames = []string{"while", "dowhile", "for", "foreach"}
+var loopNames = []string{"while", "dowhile", "for", "foreach", "fordown"}
 
 func (g *gen) block(d, n int) []Stmt {
 	var out []Stmt
@@ -640,9 +640,32 @@ func (g *gen) loop(d int) []Stmt {
 	if d >= 3 {
 		bound = 2
 	}
+	if !g.ex("loop.fordown") && len(g.sc.ints) >= 2 && g.chance(10, "fordown") {
+		kind = KForDown
+	}
 	l := &Loop{Kind: kind}
 	var pre []Stmt
 	g.feat("loop." + loopNames[kind])
+	if kind == KForDown {
+		// counts an existing variable down to 0; the body may read it but not write it
+		l.K = g.sc.ints[g.pick(len(g.sc.ints), "downvar")]
+		saved := *g.sc
+		var rest []*Var
+		for _, v := range g.sc.ints {
+			if v != l.K {
+				rest = append(rest, v)
+			}
+		}
+		g.sc.ints = rest
+		g.sc.statics = append(append([]*Var{}, g.sc.statics...), l.K)
+		g.encl = append(g.encl, 0)
+		g.loopK = append(g.loopK, kind)
+		l.Body = g.block(d+1, g.intn(1, 3, "ndownbody"))
+		g.encl = g.encl[:len(g.encl)-1]
+		g.loopK = g.loopK[:len(g.loopK)-1]
+		*g.sc = saved
+		return []Stmt{l}
+	}
 	if kind == KForeach {
 		n := g.intn(0, bound+1, "nitems")
 		keyed := !g.ex("foreach.keyed") && g.chance(35, "keyed")
